@@ -3,6 +3,7 @@ package main
 import (
 	"fmt"
 	"go/types"
+	"reflect"
 	"sort"
 	"strings"
 
@@ -734,6 +735,26 @@ func rulesC15(e *Engine, r *Report) {
 	_ = sort.Strings
 	// ---------------------------------------------------------------- R15.8
 	e.shareRule(r, "C14", "R14.1c", "R15.8", "a request that names no source is refused before anything exists for it: getGateKeeper answers nil (→ 400) for an empty source name - with the receiver's wiring an empty name would otherwise get a gatekeeper rooted at the directories ALL sources share")
+	// ---------------------------------------------------------------- R15.9
+	r.Rule("R15.9", "a receiver's allow lists are read under the same key in both notations: every field of sts.ServerConf that has a yaml and a json tag carries the same key in both - a key list that the JSON notation silently ignores (`keys` vs `key`) leaves the receiver without a key check")
+	if t := e.Type("sts", "ServerConf"); t != nil {
+		if st, ok := t.Underlying().(*types.Struct); ok {
+			n := 0
+			for i := 0; i < st.NumFields(); i++ {
+				tag := reflect.StructTag(st.Tag(i))
+				y, j := strings.Split(tag.Get("yaml"), ",")[0], strings.Split(tag.Get("json"), ",")[0]
+				if y == "" || j == "" || y == "-" || j == "-" {
+					continue
+				}
+				n++
+				r.Check(y == j, "R15.9", "sts.ServerConf."+st.Field(i).Name()+": yaml and json keys agree", e.Pos(st.Field(i).Pos()),
+					"the option is `"+y+"` in YAML and `"+j+"` in JSON: a configuration written in one notation is silently not read in the other", 1, y)
+			}
+			r.Min("R15.9", "doubly tagged fields of ServerConf", n, 5)
+		}
+	} else {
+		r.Unresolved("R15.9", "sts.ServerConf")
+	}
 }
 
 // checkGateKeeperOnce: creating the gatekeeper of a source is check-then-act
